@@ -166,6 +166,9 @@ func (root *Schema) Resolve(opts *ResolveOptions) (*Resolved, error) {
 	//    in a map from URIs to schemas within root.
 	// 4. Resolve references: all refs in the schemas are replaced with the schema they refer to.
 	// 5. (Optional.) If opts.ValidateDefaults is true, validate the defaults.
+	if root == nil {
+		return nil, errors.New("jsonschema: cannot resolve a nil schema")
+	}
 	r := &resolver{loaded: map[string]*Resolved{}}
 	if opts != nil {
 		r.opts = *opts
